@@ -686,6 +686,20 @@ pub fn gen_fmt(seed: u64, tier: &str) -> Vec<String> {
             RefTree::Tok(11, "long \"quoted\" text that is abbreviated\n".into()),
         ],
     );
+    // long (abbreviated) texts with a character that `{:?}` escapes before, inside and behind the cut window
+    let esc = match esc {
+        RefTree::Node(k, mut cs) => {
+            for ch in ['"', '\\', '\n', '\t'] {
+                for pos in [0usize, 10, 20, 21, 22, 23, 24, 27] {
+                    let mut t: Vec<char> = "abcdefghijklmnopqrstuvwxyz0123".chars().collect();
+                    t[pos] = ch;
+                    cs.push(RefTree::Tok(10, t.into_iter().collect()));
+                }
+            }
+            RefTree::Node(k, cs)
+        }
+        t => t,
+    };
     start_case(&mut out, &mut case, &esc, &mut rng, "user");
     let mut sim = Sim::new(&esc, "g0", &mut out);
     sim.nav(0, &["descendants_with_tokens"], &mut out);
